@@ -144,6 +144,9 @@ def main():
         err_hist[k] = err_hist.get(k, 0) + 1
         ck.case(payload, nontrivial=len(payload) > 0, sample=({"stream": label, "payload": payload.hex()[:64], "impl": got[:120]} if ck.cov["evaluations"] % 2503 == 0 else None))
 
+    # the payload of the Coq example C17_all_classes_example (every frame class once): the model's answer there is a theorem
+    one(bytes([3, 64, 100, 5, 2, 3, 1, 2, 65, 44, 7, 1, 0, 128, 1, 17, 112, 0, 0, 0, 1, 26, 1, 2, 3, 4, 5, 6, 7, 8, 6, 0, 3, 9, 9, 9, 30, 49, 2, 7, 7, 10,
+               4, 2, 5, 6, 27, 8, 7, 6, 5, 4, 3, 2, 1, 48, 9, 8, 7]), None, "pinned")
     # structured stream
     n_struct = 1500 if ck.tier == "quick" else 30000
     for i in range(n_struct):
@@ -210,7 +213,8 @@ def main():
     ck.finish("proof", assumptions=[
         "the frame dispatch table and class constants are regenerated from the source (G1); the class constructors are hand-modelled and tied by correspondence",
         "bytes are in 0..255 (hypothesis bytes_ok of the theorems; the code only ever sees bytes objects)",
-        "the round-trip half of the property is decided by the structured stream of the correspondence and search in this revision (Coq round-trip theorem: see DESIGN.md)"])
+        "round trip: theorems for every class of the table (field programs, ACK with any ranges and ECN, PADDING runs, PING, HANDSHAKE_DONE, PATH_*, DATAGRAM) and for "
+        "payloads mixing them; the reference encoder of the structured stream is the executable counterpart and is compared on the implementation"])
 
 
 if __name__ == "__main__":
